@@ -392,6 +392,35 @@ func genC15(w *bufio.Writer, r *rng, thorough bool) {
 			emit(w, "fr.bin %s %s", be32(sum.Mod(sum, rMod)), be32(x)) // x-y = v
 		}
 	}
+	// pairs of REGULAR values with every per-limb order pattern (<, =, >) — comparison logic
+	for pat := 0; pat < 81; pat++ {
+		for rep := 0; rep < 2; rep++ {
+			a, b := new(big.Int), new(big.Int)
+			pp := pat
+			for i := 0; i < 4; i++ {
+				lim := uint64(1) << 62 // keeps both values below r
+				if i < 3 {
+					lim = ^uint64(0) - 2
+				}
+				x := 1 + r.u64()%lim
+				var y uint64
+				switch pp % 3 {
+				case 0:
+					y = x
+				case 1:
+					y = x + 1
+				default:
+					y = x - 1
+				}
+				pp /= 3
+				xa := new(big.Int).SetUint64(x)
+				ya := new(big.Int).SetUint64(y)
+				a.Add(a, xa.Lsh(xa, uint(64*i)))
+				b.Add(b, ya.Lsh(ya, uint(64*i)))
+			}
+			emit(w, "fr.bin %s %s", be32(a.Mod(a, rMod)), be32(b.Mod(b, rMod)))
+		}
+	}
 	nb := 3000
 	if thorough {
 		nb = 100000
